@@ -50,12 +50,13 @@ var c12FaultsByKind = map[string][]string{
 	"connect":              {"none", "refuse", "blackhole", "rst-at-accept"},
 	"connect-upstream":     {"none", "refuse", "blackhole", "proxy-reject", "fin-at", "rst-at", "bad-status-line", "proxy-reject"},
 	"connect-upstream-tls": {"none", "refuse", "proxy-reject", "tls-garbage", "tls-close", "cert-expired", "cert-wrongname", "cert-untrusted"},
+	"mitm-upstream":        {"none", "refuse", "blackhole", "proxy-reject", "proxy-reject-cut", "proxy-reject-cut", "fin-at", "rst-at", "bad-status-line"},
 	"mitm":                 {"odd-status-line", "none", "refuse", "blackhole", "tls-garbage", "tls-close", "cert-expired", "cert-wrongname", "cert-untrusted", "fin-at", "rst-at", "bad-chunk"},
 }
 
 func genC12(t *tape.Tape, tier string) any {
 	c := &c12Case{}
-	c.Kind = []string{"plain", "upstream", "connect", "connect-upstream", "connect-upstream-tls", "mitm"}[t.Pick(6, 3, 2, 3, 2, 1)]
+	c.Kind = []string{"plain", "upstream", "connect", "connect-upstream", "connect-upstream-tls", "mitm", "mitm-upstream"}[t.Pick(6, 3, 2, 3, 2, 1, 2)]
 	fs := c12FaultsByKind[c.Kind]
 	c.Fault = fs[t.Intn(len(fs))]
 	c.RespKind = []string{"cl", "chunked", "eof"}[t.Pick(4, 4, 1)]
@@ -83,6 +84,7 @@ type c12World struct {
 	full    []byte         // the faulty token's intended full reply
 	sent    int            // bytes of it actually written before the cut
 	faultAt time.Duration  // simulated time at which the fault was applied (-1: not yet)
+	ca      *simtls.CA     // (mitm-upstream) the scripted upstream also plays the TLS origin behind a healthy tunnel
 }
 
 func (w *c12World) healthyReply(tok string, head bool) []byte {
@@ -211,6 +213,17 @@ func (w *c12World) serveConnect(conn net.Conn, raw *simnet.Conn, br *bufio.Reade
 	isFault := strings.Contains(m.Target, faultTok) && c.Fault != "none"
 	if !isFault {
 		conn.Write([]byte("HTTP/1.1 200 Connection established\r\n\r\n"))
+		if c.Kind == "mitm-upstream" {
+			// the proxy's transport speaks TLS with the origin through this tunnel
+			host, _, _ := net.SplitHostPort(m.Target)
+			tc := tls.Server(&prefixConn{Conn: conn, r: br}, &tls.Config{Certificates: []tls.Certificate{w.ca.ValidLeaf(host)}})
+			if tc.Handshake() != nil {
+				conn.Close()
+				return
+			}
+			w.serveHTTP(tc, raw, "")
+			return
+		}
 		// behave as the target: answer the client's probe
 		w.serveHTTP(&prefixConn{Conn: conn, r: br}, raw, "")
 		return
@@ -224,6 +237,19 @@ func (w *c12World) serveConnect(conn net.Conn, raw *simnet.Conn, br *bufio.Reade
 		body := strings.Repeat("r", c.RejectBody)
 		full := fmt.Sprintf("HTTP/1.1 %d Rejected By Upstream\r\nX-Upstream-Says: no\r\nContent-Length: %d\r\n\r\n%s", c.RejectStatus, len(body), body)
 		conn.Write([]byte(full))
+	case "proxy-reject-cut":
+		// the rejection carries a body, and the connection ends inside it
+		n := 40 + c.RejectBody
+		body := strings.Repeat("r", n)
+		head := fmt.Sprintf("HTTP/1.1 %d Rejected By Upstream\r\nX-Upstream-Says: no\r\nContent-Length: %d\r\n\r\n", c.RejectStatus, n)
+		k := 1 + c.K%(n-1)
+		conn.Write([]byte(head + body[:k]))
+		w.mu.Lock()
+		w.sent = k
+		w.mu.Unlock()
+		if c.K%2 == 1 {
+			raw.Abort()
+		}
 	case "fin-at", "rst-at":
 		full := []byte("HTTP/1.1 200 Connection established\r\nX-Filler: ffffffffffffffffffff\r\n\r\n")
 		k := c.K % len(full) // strictly inside the reply head
@@ -252,6 +278,7 @@ func runC12(env *core.Env, ci any) {
 	env.AcctInexact = true // (C13 mode) clients here abandon exchanges on purpose: only gauges and inequalities are judged
 	w := &c12World{env: env, c: c, seen: map[string]int{}, faultAt: -1}
 	ca := simtls.NewCA("verifsim CA")
+	w.ca = ca
 	otherCA := simtls.NewCA("verifsim untrusted CA")
 	faultTok := fmt.Sprintf("tk%dz", c.Before+1)
 	faultHost := faultTok + ".ok.example"
@@ -404,6 +431,9 @@ func runC12(env *core.Env, ci any) {
 				cfg.UpstreamProxy = &url.URL{Scheme: "https", Host: "upstream.example:8080"}
 			case "mitm":
 				cfg.MITM = forwarder.DefaultMITMConfig()
+			case "mitm-upstream":
+				cfg.MITM = forwarder.DefaultMITMConfig()
+				cfg.UpstreamProxy = &url.URL{Scheme: "http", Host: "upstream.example:8080"}
 			}
 		},
 	})
@@ -443,7 +473,7 @@ func runC12(env *core.Env, ci any) {
 				port = ":80"
 			}
 			return []byte(fmt.Sprintf("CONNECT %s%s %s\r\nHost: %s%s\r\n\r\n", host, port, proto, host, port)), "CONNECT"
-		case c.Kind == "mitm":
+		case c.Kind == "mitm" || c.Kind == "mitm-upstream":
 			body := ""
 			if method == "POST" {
 				body = "Content-Length: 5\r\n\r\nhello"
@@ -472,7 +502,7 @@ func runC12(env *core.Env, ci any) {
 			}
 			var conn net.Conn = raw
 			br := bufio.NewReader(conn)
-			if c.Kind == "mitm" {
+			if c.Kind == "mitm" || c.Kind == "mitm-upstream" {
 				fmt.Fprintf(conn, "CONNECT %s HTTP/1.1\r\nHost: %s\r\n\r\n", sni, sni)
 				m, err := h1.ReadResponse(br, "CONNECT")
 				if err != nil || m.Status != 200 {
@@ -542,7 +572,7 @@ func runC12(env *core.Env, ci any) {
 		conn, br, ok := dialProxy("client1", "probe.ok.example:443")
 		if ok {
 			rb, method := []byte("GET http://tk99z.ok.example/tk99z HTTP/1.1\r\nHost: tk99z.ok.example\r\n\r\n"), "GET"
-			if c.Kind == "mitm" {
+			if c.Kind == "mitm" || c.Kind == "mitm-upstream" {
 				rb = []byte("GET /tk99z HTTP/1.1\r\nHost: tk99z.ok.example\r\n\r\n")
 			}
 			conn.Write(rb)
@@ -559,7 +589,7 @@ func runC12(env *core.Env, ci any) {
 		env.Fail("fault-hang", feature, "scheduler outcome %v at simulated %v: after the fault the client was neither answered nor disconnected", out, env.Sched.Elapsed())
 	} else {
 		// "the upstream proxy itself is down": every exchange of the run goes through it and is faulty
-		allFaulty := (c.Kind == "upstream" || c.Kind == "connect-upstream" || c.Kind == "connect-upstream-tls") && (c.Fault == "refuse" || c.Fault == "blackhole")
+		allFaulty := (c.Kind == "upstream" || c.Kind == "connect-upstream" || c.Kind == "connect-upstream-tls" || c.Kind == "mitm-upstream") && (c.Fault == "refuse" || c.Fault == "blackhole")
 		for i, o := range outs {
 			faulty := o.tok == faultTok || allFaulty
 			if !faulty || c.Fault == "none" {
@@ -649,6 +679,21 @@ func (w *c12World) judgeFaulty(m *h1.Msg, err error, feature string, isConnect b
 			env.Fail("fault-wrong-status", feature, "an upstream failure was reported with status %d (%s), want 5xx", m.Status, xe)
 		}
 		env.Probe(fmt.Sprintf("error_response_%d", m.Status))
+		return
+	}
+	if c.Kind == "mitm-upstream" && (c.Fault == "proxy-reject" || c.Fault == "proxy-reject-cut") {
+		// the proxy's own CONNECT (made for a request inside the intercepted session) was rejected by the upstream proxy
+		if m.Status != c.RejectStatus && (m.Status < 500 || m.Status > 599) {
+			env.Fail("fault-wrong-status", feature, "the upstream proxy rejected the CONNECT with %d, the client received %d", c.RejectStatus, m.Status)
+		}
+		want := c.RejectBody
+		if c.Fault == "proxy-reject-cut" {
+			want = 40 + c.RejectBody
+		}
+		if got := len(m.Body); got > 0 && got < want && strings.Trim(string(m.Body), "r") == "" && m.Framing != h1.FrEOF {
+			env.Fail("fault-truncated-passed-as-complete", feature, "the upstream proxy's rejection body has %d bytes (the connection ended after %d of them); the client received a response that parses as complete with %d of those bytes", want, sent, got)
+		}
+		env.Probe("transport_connect_rejected")
 		return
 	}
 	if isConnect && c.Fault == "proxy-reject" {
